@@ -526,10 +526,10 @@ func (c *checker) lit(n *syntax.Lit) {
 	if c.assignLits[n] {
 		class = "assign_pos_by_length_arithmetic"
 	}
-	// Known-finding class "zsh_dollar_prefix_literal": in zsh a "$#", "$+" or "$%" that is not followed
+	// Known-finding class "zsh_dollar_prefix_literal": in zsh a "$#", "$+", "$%", "$=", "$~" or "$^" that is not followed
 	// by a parameter name becomes the literal "$" spanning both bytes (the prefix byte is lost).
 	if c.lang == syntax.LangZsh && n.Value == "$" && end == off+2 && off+1 < len(c.src) &&
-		c.src[off] == '$' && strings.IndexByte("#+%", c.src[off+1]) >= 0 {
+		c.src[off] == '$' && strings.IndexByte("#+%=~^", c.src[off+1]) >= 0 {
 		class = "zsh_dollar_prefix_literal"
 	}
 	// Known-finding class "dollar_before_escaped_newline": a '$' followed by backslash-newline becomes the
